@@ -131,6 +131,12 @@ func (vc *VC) axiom(f string) {
 	if vc.axset[f] {
 		return
 	}
+	// instance axioms are global: one that mentions a quantifier-bound variable outside its binder would be ill-formed
+	for id := range identSet(f) {
+		if strings.HasPrefix(id, "q_") && !strings.Contains(f, "(("+id+" ") {
+			return
+		}
+	}
 	vc.axset[f] = true
 	vc.axioms = append(vc.axioms, f)
 }
